@@ -40,6 +40,7 @@ type VerifInstall struct {
 // VerifCompactionInfo describes a table compaction about to run.
 type VerifCompactionInfo struct {
 	Session     uintptr
+	VersionID   int64 // the version the compaction was picked on
 	SourceLevel int
 	Typ         int
 	Inputs      [2][]int64
@@ -185,7 +186,7 @@ func verifCompaction(db *DB, c *compaction, minSeq uint64, trivial bool) {
 	if h == nil || h.Compaction == nil {
 		return
 	}
-	ci := &VerifCompactionInfo{Session: verifSID(db.s), SourceLevel: c.sourceLevel, Typ: c.typ, MinSeq: minSeq, Trivial: trivial}
+	ci := &VerifCompactionInfo{Session: verifSID(db.s), VersionID: c.v.id, SourceLevel: c.sourceLevel, Typ: c.typ, MinSeq: minSeq, Trivial: trivial}
 	for i, tf := range c.levels {
 		for _, t := range tf {
 			ci.Inputs[i] = append(ci.Inputs[i], t.fd.Num)
